@@ -137,6 +137,17 @@ def check_refusal(arg):
             cisco_acl.address.collapse(["10.0.0.0/24"])
         elif kind == "nc-ag":
             cisco_acl.address_ag.collapse([cisco_acl.AddressAg("10.0.0.0 0.0.1.3", platform="nxos")])
+        elif kind.startswith("nc-after-rejected:"):
+            # a non-contiguous address whose line was reassigned to something the library rejected (the object keeps the wildcard): still refused,
+            # wherever it stands in the list
+            _, bad_line, pos, platform = kind.split(":")
+            nc = cisco_acl.Address("10.0.0.0 0.0.3.3", platform=platform)
+            try:
+                nc.line = bad_line
+            except ValueError:
+                pass
+            others = [cisco_acl.Address("host 192.168.1.1" if platform == "ios" else "192.168.1.1/32", platform=platform)]
+            cisco_acl.address.collapse(others + [nc] if pos == "last" else [nc] + others)
     except TypeError:
         return [], 1
     except Exception as ex:
@@ -265,7 +276,8 @@ def main(chk):
                     "(lists of maximal length are sampled 1 in 3/6); "
                     f"{len(rl)} seeded lists of 1..6 related networks (siblings, parents, children, neighbours, duplicates) anywhere in the address space; lists of <= 2 also on objects that held another address, were queried and collapsed, "
                     f"then re-addressed through the line / prefix setters ({len(hist)} histories)", viol, time.time() - t0, [[f"{quad(a)}/{l}" for a, l in cases[500][0]]], exhaustive=False)
-    res = pmap(check_refusal, ["nc", "foreign", "foreign2", "str", "nc-ag"])
+    res = pmap(check_refusal, ["nc", "foreign", "foreign2", "str", "nc-ag"] + [f"nc-after-rejected:{bl}:{pos}:{pl}" for bl in ("10.0.0.0/33", "10.0.0.256/24", "host 10.0.0.256", "10.0.0.0 0.0.0.256")
+                                                                                        for pos in ("last", "first") for pl in ("ios", "nxos")])
     for fails, _ in res:
         for f in fails:
             chk.finding(f["key"], f["what"], inputs=f["inputs"], key=f["key"])
